@@ -95,7 +95,7 @@ def generate(streams, tier):
                 ops.append([who, op, rng.randrange(0, len(data) + 4), rng.random() < 0.5])
             else:
                 ops.append([who, op])
-    return {"data": data, "ops": ops}
+    return {"data": data, "ops": ops, "buffer": rng.choice(["bytes", "bytes", "bytearray", "memoryview"])}
 
 
 def _abstract(m):
@@ -110,7 +110,9 @@ def execute(plan, env):
     res = Result()
     tr = Trace(keep=env.keep_trace)
     data = bytes(plan["data"])
-    pool = [(EoReader(data), ReaderModel(data), 0)]  # real, model, slice depth
+    buf = {"bytes": bytes, "bytearray": bytearray, "memoryview": lambda b: memoryview(bytearray(b))}[plan.get("buffer", "bytes")](data)
+    res.count("buffer_" + plan.get("buffer", "bytes"))
+    pool = [(EoReader(buf), ReaderModel(data), 0)]  # real, model, slice depth
 
     def fail(kind, op, mode, detail, step):
         res.violation = {
